@@ -9,7 +9,9 @@ Inductive cp_op :=
 
 (* what the caller observes from one API call *)
 Record cp_result := mkres { r_rc : Z; r_consumed : nat; r_in_status : Z; r_out_status : Z; r_ntx : nat;
+                            r_ibuf : nat; r_ihdr : nat; r_obuf : nat; r_ohdr : nat;   (* in_buf_size, |in_header|, out_buf_size, |out_header| *)
                             r_events : list event (* oldest first *); r_has_events : bool }.
+Definition olen (o : option bytes) : nat := match o with Some b => length b | None => 0 end.
 
 Section WithOracle.
 Variable cb : cb_oracle.
@@ -17,7 +19,9 @@ Variable g : cfg.
 
 Definition finish_call (c : connp) (rc : Z) (consumed : nat) (ev : bool) : connp * cp_result :=
   (c <| c_events := [] |>,
-   mkres rc consumed (c_in_status c) (c_out_status c) (length (c_txs c)) (rev (c_events c)) ev).
+   mkres rc consumed (c_in_status c) (c_out_status c) (length (c_txs c))
+         (olen (k_buf (c_in c))) (olen (k_header (c_in c))) (olen (k_buf (c_out c))) (olen (k_header (c_out c)))
+         (rev (c_events c)) ev).
 
 (* htp_connp_open *)
 Definition connp_open (c : connp) : connp :=
